@@ -104,7 +104,15 @@ class ExprMixin:
     def e_CXXDefaultInitExpr(self, n):
         if n.get('inner'):
             return self.ex(n['inner'][0])
-        return self.zero(self.tyof(n))
+        raise LoweringError('default member initialiser used outside a known field context')
+
+    def field_default(self, fnode, ft):
+        """value of a field's in-class default member initialiser (clang's dump does not repeat it at the use)"""
+        inits = [c for c in fnode.get('inner', []) if c.get('kind') and not c['kind'].endswith('Attr')
+                 and not c['kind'].endswith('Comment')]
+        if not inits:
+            return self.zero(ft)
+        return self.ex(inits[0], want=ft)
 
     def e_ImplicitValueInitExpr(self, n):
         return self.zero(self.tyof(n))
@@ -320,8 +328,11 @@ class ExprMixin:
             if not items:
                 return self.zero(t)
             parts = []
-            for (fname, ft, _), it in zip(fields, items):
-                parts.append(f'.{fname} = {self.ex(it, want=ft)}')
+            for (fname, ft, fnode), it in zip(fields, items):
+                if it.get('kind') == 'CXXDefaultInitExpr' and not it.get('inner'):
+                    parts.append(f'.{fname} = {self.field_default(fnode, ft)}')
+                else:
+                    parts.append(f'.{fname} = {self.ex(it, want=ft)}')
             if len(items) < len(fields) and self.record_inits.get(c):
                 raise LoweringError(f'partial init list for {c} with default member initialisers')
             return f'(({c}){{{", ".join(parts)}}})'
